@@ -18,6 +18,8 @@ def max_accepted_forward_v4 : Nat := 32
 def max_accepted_forward_v6 : Nat := 128
 def max_accepted_min_scope_v4 : Nat := 32
 def max_accepted_min_scope_v6 : Nat := 128
+def max_cache_ttl_s : Nat := 86400
+def min_cache_ttl_s : Nat := 5
 def shipped_cache_limit_ttl_s : Nat := 300
 def shipped_client_networks : Nat := 0
 def shipped_enabled : Bool := false
